@@ -2,7 +2,7 @@
    over the executable model C38/Model.v + C39/Model.v. *)
 From stdpp Require Import gmap.
 From Coq Require Import ZArith.
-From GV Require Import C38.Model C38.Proofs C39.Model C39.Proofs.
+From GV Require Import C38.Model C38.Exec C38.Proofs C38.Proofs2 C38.Proofs3 C39.Model C39.Proofs.
 
 (* For ANY join (commutative, associative, idempotent on a merge-closed class U of states): two
    receivers that start from the same state and receive the same SET of states — any order, any
@@ -69,6 +69,50 @@ Theorem C39_orset_delta_add_remove_refuted : ∃ ops,
   s_elements (joinl s_merge s_new r.2) ≠ s_elements (s_merge s_new r.1).
 Proof. exact s_delta_add_remove_refuted. Qed.
 
+(* Flag, LWWRegister, MVRegister, ORMap ship their whole state as the delta after a local operation. *)
+Theorem C39_delta_is_full_state :
+  (∀ r v ts n, l_deltaOf (l_set r v ts n) = Some (l_set r v ts n)) ∧
+  (∀ r n v, mv_deltaOf (mv_set r n v) = Some (mv_set r n v)) ∧
+  (∀ x, f_enabled x = false → f_deltaOf (f_enable x) = Some (f_enable x)) ∧
+  (∀ (V : Type) (vm : V → V → V) (m : ormap V) n k v, m_deltaOf (m_set vm m n k v) = Some (m_set vm m n k v)) ∧
+  (∀ (V : Type) (m : ormap V) k, s_contains (m_keys m) k = true → m_deltaOf (m_remove m k) = Some (m_remove m k)).
+Proof. exact delta_is_full_state_after_local_op. Qed.
+
+(* MVRegister: in any system of replicas (each its own node id; H = every state ever produced, i.e. every
+   possible delta/full state on the network), receivers of the same set of states converge. *)
+Theorem C39_mvregister_converges : ∀ cur H, mv_sys cur H →
+  ∀ (x : mvreg) (l1 l2 : list mvreg), x ∈ H → (∀ y, y ∈ l1 → y ∈ H) → (∀ y, y ∈ l2 → y ∈ H) → (∀ y, y ∈ l1 ↔ y ∈ l2) →
+  mvc_of (joinl mv_merge x l1) = mvc_of (joinl mv_merge x l2).
+Proof.
+  intros cur H Hs x l1 l2 Hx H1 H2 Hset. destruct (mv_sys_inv cur H Hs) as [Iwf _ Icoh _].
+  assert (∀ s, s ∈ H → mv_wf s) as Fwf by (intros s Hs'; apply (Iwf s Hs')).
+  rewrite !mv_joinl_core by (apply Forall_forall; auto).
+  apply (mv_family_converges H Icoh).
+  - apply mvU_of; auto.
+  - intros y Hy. apply elem_of_list_fmap in Hy as [s [-> Hs']]. apply mvU_of; auto.
+  - intros y Hy. apply elem_of_list_fmap in Hy as [s [-> Hs']]. apply mvU_of; auto.
+  - intros y. rewrite !elem_of_list_fmap. split; intros [s [-> Hs']]; exists s; (split; [reflexivity|]); apply Hset; exact Hs'.
+Qed.
+
+(* LWWRegister: same, for replicas whose timestamps strictly increase per node. *)
+Theorem C39_lww_converges : ∀ cur H, l_sys cur H →
+  ∀ (x : lww) (l1 l2 : list lww), x ∈ H → (∀ y, y ∈ l1 → y ∈ H) → (∀ y, y ∈ l2 → y ∈ H) → (∀ y, y ∈ l1 ↔ y ∈ l2) →
+  joinl lc_merge (l_core x) (l_core <$> l1) = joinl lc_merge (l_core x) (l_core <$> l2).
+Proof.
+  intros cur H Hs x l1 l2 Hx H1 H2 Hset. destruct (l_sys_inv cur H Hs) as [Icoh _].
+  apply (l_family_converges H Icoh).
+  - exists x. auto.
+  - intros y Hy. apply elem_of_list_fmap in Hy as [s [-> Hs']]. exists s. auto.
+  - intros y Hy. apply elem_of_list_fmap in Hy as [s [-> Hs']]. exists s. auto.
+  - intros y. rewrite !elem_of_list_fmap. split; intros [s [-> Hs']]; exists s; (split; [reflexivity|]); apply Hset; exact Hs'.
+Qed.
+
+(* ORMap: the literal statement is FALSE (same root as C38_ormap_assoc_refuted): three full states received in
+   two different orders expose different nested values.  Key sets still converge (C38_ormap_join_partial). *)
+Theorem C39_ormap_order_refuted : ∃ a b c : ormap val0,
+  value1 (joinl merge1 m_new [a; b; c]) ≠ value1 (joinl merge1 m_new [b; c; a]).
+Proof. exists w_a, w_b, w_c. exact ormap_order_refuted. Qed.
+
 Print Assumptions C39_any_join_converges.
 Print Assumptions C39_any_join_is_join_of_sent.
 Print Assumptions C39_replicator_store_converges.
@@ -78,3 +122,7 @@ Print Assumptions C39_gcounter_delta_wrap_refuted.
 Print Assumptions C39_orset_full_state_partial.
 Print Assumptions C39_orset_delta_refuted.
 Print Assumptions C39_orset_delta_add_remove_refuted.
+Print Assumptions C39_delta_is_full_state.
+Print Assumptions C39_mvregister_converges.
+Print Assumptions C39_lww_converges.
+Print Assumptions C39_ormap_order_refuted.
